@@ -147,6 +147,22 @@ ParseAt(toks, i) ==
 TreeOf(toks) == ParseAt(toks, 1).t
 ForestOf(toks, n) == ParseKids(toks, 1, n).ts
 
+(* Trees arrive in traces as flat preorder lists of [t, a, cp, ks, n] (n = number of      *)
+(* children): the JSON reader of TLC refuses nesting deeper than 255.                     *)
+RECURSIVE FParseAt(_, _), FParseKids(_, _, _)
+FParseKids(toks, i, n) ==
+  IF n = 0 THEN [ts |-> <<>>, nx |-> i]
+  ELSE LET h == FParseAt(toks, i)
+           r == FParseKids(toks, h.nx, n - 1)
+       IN [ts |-> <<h.t>> \o r.ts, nx |-> r.nx]
+FParseAt(toks, i) ==
+  LET k == toks[i]
+      r == FParseKids(toks, i + 1, k.n)
+  IN [t |-> Node(k.t, k.a, k.cp, k.ks, r.ts), nx |-> r.nx]
+
+WellFormedFlat(toks) == Len(toks) > 0 /\ FParseAt(toks, 1).nx = Len(toks) + 1
+FTree(toks) == FParseAt(toks, 1).t
+
 (* all key lists of length n over a key palette *)
 KeyLists(K, n) == [1..n -> K]
 =============================================================================
